@@ -23,16 +23,25 @@ SecTables(ks, ke) ==
   {<<S(KOff + ks, ke - ks, 6)>>, <<S(KOff + ks + 1, 2, 2)>>}
   \cup (IF ke - ks > PS THEN {<<S(KOff + ks, PS, 6), S(KOff + ks + PS, ke - ks - PS, 3), S(20, 6, 2)>>} ELSE {})
 
-ConfigsOf(maps, nbs) ==
-  UNION {UNION {{[regs |-> m, ks |-> pl[1], ke |-> pl[2], secs |-> st, nb |-> nb] : st \in SecTables(pl[1], pl[2]), nb \in nbs} :
-                  pl \in Placements(m)} : m \in maps}
+AllOps == {"alloc", "free", "dfree", "drain", "freeall", "lazy", "fault", "own", "unmap"}
+ConfigsOf(maps, nbs, mo, ops, ups) ==
+  UNION {UNION {{[regs |-> m, ks |-> pl[1], ke |-> pl[2], secs |-> st, nb |-> nb, mo |-> mo, ops |-> ops, ups |-> ups] :
+                   st \in SecTables(pl[1], pl[2]), nb \in nbs} : pl \in Placements(m)} : m \in maps}
+With(c, mo, ops, ups) == [regs |-> c.regs, ks |-> c.ks, ke |-> c.ke, secs |-> c.secs, nb |-> c.nb, mo |-> mo, ops |-> ops, ups |-> ups]
 
-MCConfigsAll == ConfigsOf({MA, MB, MC, MD, ME, MF}, {1, 2})
-MCConfigsAllQuick == ConfigsOf({MB, MD, ME}, {1})
 \* fixed machines for the operation histories
-MCConfigsHist == {[regs |-> MA, ks |-> 8, ke |-> 13, secs |-> <<S(KOff + 8, 4, 6), S(KOff + 12, 1, 3), S(20, 6, 2)>>, nb |-> 1],
-                  [regs |-> MB, ks |-> 24, ke |-> 28, secs |-> <<S(KOff + 24, 4, 6)>>, nb |-> 2]}
-MCConfigsHist1 == {[regs |-> MA, ks |-> 8, ke |-> 13, secs |-> <<S(KOff + 8, 4, 6), S(KOff + 12, 1, 3), S(20, 6, 2)>>, nb |-> 1]}
+H1 == [regs |-> MA, ks |-> 8, ke |-> 13, secs |-> <<S(KOff + 8, 4, 6), S(KOff + 12, 1, 3), S(20, 6, 2)>>, nb |-> 1]
+H2 == [regs |-> MB, ks |-> 24, ke |-> 28, secs |-> <<S(KOff + 24, 4, 6)>>, nb |-> 2]
 \* 15 usable frames, 12 taken by the boot: histories that run out of memory
-MCConfigsTight == {[regs |-> <<R(4, 60, 1)>>, ks |-> 4, ke |-> 8, secs |-> <<S(KOff + 4, 4, 6)>>, nb |-> 1]}
+HT == [regs |-> <<R(4, 60, 1)>>, ks |-> 4, ke |-> 8, secs |-> <<S(KOff + 4, 4, 6)>>, nb |-> 1]
+
+\* every machine (6 map shapes x kernel placements x section tables x 1-2 allocator pages) with one operation;
+\* operation histories on the fixed machines
+MCQuick == ConfigsOf({MB, MD, ME}, {1}, 1, {"alloc", "lazy", "fault"}, {1})
+           \cup {With(H1, 3, AllOps, {1, 2, 4}), With(H2, 3, AllOps, {1, 2, 4})}
+           \cup {With(HT, 4, {"alloc", "free", "drain", "freeall", "lazy", "fault"}, {1})}
+MCFull  == ConfigsOf({MA, MB, MC, MD, ME, MF}, {1, 2}, 1, {"alloc", "lazy", "fault", "own"}, {1, 4})
+           \cup {With(H1, 4, AllOps, {1, 2, 3, 4}), With(H2, 4, AllOps, {1, 2, 3, 4})}
+           \cup {With(HT, 5, {"alloc", "free", "drain", "freeall", "lazy", "fault", "own", "unmap"}, {1, 4})}
+MCBugs  == {With(H1, 3, AllOps, {1, 4}), With(H2, 3, AllOps, {1, 4})}
 ====
